@@ -212,6 +212,7 @@ def run(res, drv, tier, seed):
         if d:
             res.violation('correspondence', f'{canon["path"]}: {d}; implementation agrees with the marginal of the joint',
                           dict(rp, model=o, stream='C02.' + kind))
+    history_stream(res, tier, seed)
 
 
 def cmp_vals(mvals, ivals, spec, tol):
@@ -229,11 +230,80 @@ def cmp_vals(mvals, ivals, spec, tol):
     return None
 
 
+def history_stream(res, tier, seed):
+    """one model object queried, then its parameters are changed WITHOUT replacing the potentials object (the total re-assigned, a
+    table re-assigned inside the container, a table updated in place, combine), then queried again through every path: each answer
+    must come from the joint distribution the model has at that moment"""
+    r = rng(seed, 'C02-history')
+    for ci in range(15 if tier == 'quick' else 150):
+        dom, cl, kind = gmgen.gen_structure(r, 400, nmax=5)
+        attrs = [a for a, _ in dom]
+        sizes = dict(map(tuple, dom))
+        total = float(r.choice([1, 10, 1000]))
+        model = gmgen.build_model(dom, cl, total, None)
+        pots = gmgen.gen_potentials(r, model, zero_p=0.05)
+        model.potentials = gmgen.impl_potentials(pots)
+        cur = [(c, fd, list(v)) for c, fd, v in pots]
+        tups = [t for t in tuples_for(r, attrs, 'quick') if len(t) > 0][:6]
+        steps, bad = [], None
+        canon = {'dom': dom, 'cliques': cl, 'history': steps, 'pots': gmgen.enc_pots(pots)}
+        for step in range(r.randint(2, 4)):
+            if step > 0:
+                k = r.randrange(len(cur))
+                c, fd, vals = cur[k]
+                how = r.choice(['total', 'assign', 'iadd', 'total', 'cache'])
+                if how == 'total':
+                    total = float(r.choice([2, 50, 12345]))
+                    model.total = total
+                elif how == 'assign':
+                    new = gmgen.gen_potentials(r, model, zero_p=0.05)[k][2]
+                    cur[k] = (c, fd, list(new))
+                    model.potentials[tuple(c)] = gmgen.impl_potentials([cur[k]])[tuple(c)]
+                elif how == 'iadd':
+                    f = [r.choice([Fr(1, 2), Fr(2), Fr(5), Fr(1)]) for _ in vals]
+                    cur[k] = (c, fd, [a * b for a, b in zip(vals, f)])
+                    model.potentials[tuple(c)] += gmgen.impl_potentials([(c, fd, f)])[tuple(c)]
+                else:
+                    with np.errstate(all='ignore'):
+                        model.marginals = model.belief_propagation(model.potentials)
+                if how != 'cache' and hasattr(model, 'marginals'):
+                    del model.marginals          # the cache belongs to the old parameters; the caller drops it
+                steps.append([how, list(c)])
+            joint = gmgen.brute_joint(dom, cur)
+            if sum(joint.values()) == 0:
+                break
+            with np.errstate(all='ignore'):
+                answers = [('project', t, model.project(tuple(t))) for t in tups]
+                many = model.calculate_many_marginals([tuple(t) for t in tups])
+                answers += [('calculate_many_marginals', t, many[tuple(t)]) for t in tups]
+                dv = model.datavector()
+            for path, t, F in answers:
+                spec = gmgen.brute_marginal(dom, joint, list(F.domain.attrs), Fr(total))
+                got = fvals(F)
+                if list(F.domain.attrs) != list(t) or any(not close(float(sv), iv, 1e-9, 1e-12 * total) for sv, iv in zip(spec, got)):
+                    bad = f'query {step + 1} after in-place parameter changes {steps}: {path}({t}) does not answer from the model\'s current joint distribution (first cells {got[:3]}, marginal of the current joint {[float(x) for x in spec[:3]]})'
+                    break
+            if not bad:
+                spec = gmgen.brute_marginal(dom, joint, attrs, Fr(total))
+                if any(not close(float(sv), float(iv), 1e-9, 1e-12 * total) for sv, iv in zip(spec, dv)):
+                    bad = f'query {step + 1} after in-place parameter changes {steps}: datavector() does not match the current joint'
+            if bad:
+                break
+        res.case(canon, len(steps) >= 1)
+        res.count('history: queries repeated on one model after in-place parameter changes')
+        if bad:
+            res.violation('failing-input', bad, {'request': canon, 'expected': bad}, key='query:history')
+
+
 def search(res, tier, seed, broken):
     run(res, None, 'quick', seed + 1)
 
 
 def replay(res, drv, rp):
+    if 'history' in rp.get('request', {}):
+        res.case(rp['request'])
+        history_stream(res, 'quick', rp.get('seed', 0))
+        return
     q = rp['request']
     dom, cl, order, total = q['dom'], q['cliques'], q['order'], Fr(q['total'])
     pots = [(e['clique'], e['dom'], [Fr(v) for v in e['vals']]) for e in q['pots']]
